@@ -1,4 +1,4 @@
-\* intended design: 3 peers (two share an id prefix), 2 subnets, thresholds 2, window 1 tick, record age 2 ticks, 4 operations, 3 ticks
+\* intended design: 3 peers (two share an id prefix), 2 subnets, thresholds 2, window 1 tick, record age 2 ticks, 4 operations, 2 ticks
 SPECIFICATION Spec
 CONSTANTS
   MaxHistory = 2
@@ -12,9 +12,9 @@ CONSTANTS
   AsymThrPm = 2000
   Age = 2
   MinObs = 1
-  MaxT = 3
+  MaxT = 2
   MaxOps = 4
-  OpSet = {"join", "joinnoip", "leave", "analyze", "clear", "cleanup"}
+  OpSet = {"join", "leave", "analyze", "clear", "cleanup"}
   Lats = {0}
   Sizes = {0}
   Claims = {0}
